@@ -329,7 +329,7 @@ pub fn handle_spop(storage: &Arc<StorageEngine>, db: usize, parts: &[RespFrame])
     let count = if parts.len() == 3 {
         match &parts[2] {
             RespFrame::BulkString(Some(bytes)) => {
-                match String::from_utf8_lossy(bytes).parse::<usize>() {
+                match String::from_utf8_lossy(bytes).parse::<i64>().map_err(|_| ()).and_then(|n| usize::try_from(n).map_err(|_| ())) {
                     Ok(n) => n,
                     Err(_) => return Ok(RespFrame::error("ERR value is not an integer or out of range")),
                 }
